@@ -175,7 +175,12 @@ async fn run_one(sc: &Value, node: &Arc<Node>, listener: &TcpListener, sched: &A
             }
             "reply" => {
                 reply_seq += 1;
-                let to = pids.get(x).cloned().unwrap_or_else(|| ExternalPid::new(Atom::new(NODE), 999_999, 0, 77));
+                // 51..98: the reply pid of call x-50 as it was in another incarnation of the node (other creation)
+                let to = if *x > 50 && *x < 99 {
+                    pids.get(&(*x - 50)).map(|p| ExternalPid::new(p.node.clone(), p.id, p.serial, p.creation.wrapping_add(1))).unwrap_or_else(|| ExternalPid::new(Atom::new(NODE), 999_998, 0, 77))
+                } else {
+                    pids.get(x).cloned().unwrap_or_else(|| ExternalPid::new(Atom::new(NODE), 999_999, 0, 77))
+                };
                 match peer_slot.as_mut() {
                     Some(p) => {
                         if !write_dist_frame(&mut p.wr, &reply_frame(&to, *x, reply_seq)).await {
@@ -223,7 +228,7 @@ async fn run_one(sc: &Value, node: &Arc<Node>, listener: &TcpListener, sched: &A
         p.frames.lock().unwrap().clear();
     }
     sched.set_free_run(true);
-    json!({"results": results, "pending_after": pending, "notes": notes, "requests_seen_by_peer": requests_seen, "hook_log": sched.take_log().len()})
+    { let lg = sched.take_log(); json!({"results": results, "pending_after": pending, "notes": notes, "requests_seen_by_peer": requests_seen, "hook_log": lg.len(), "hook_log_full": if std::env::var("VERIF_DEBUG").is_ok() { json!(lg) } else { json!(null) }}) }
 }
 
 pub fn run(args: &[String]) -> i32 {
@@ -233,6 +238,7 @@ pub fn run(args: &[String]) -> i32 {
     let mut w = NdWriter::create(&args[1]);
     rt.block_on(async {
         let sched = AsyncSched::install();
+        sched.only(&["rpc.", "rx."]);
         sched.set_free_run(true);
         let listener = TcpListener::bind("127.0.0.1:0").await.expect("bind");
         let (epmd_port, _epmd) = fake_epmd(listener.local_addr().unwrap().port()).await;
